@@ -10,9 +10,10 @@ import operator as op
 
 
 class Entry:
-    def __init__(self, name, fn, ins, ref=None, dom=None, assume=None, tags=()):
+    def __init__(self, name, fn, ins, ref=None, dom=None, assume=None, tags=(), may_raise=None):
         self.name, self.fn, self.ins, self.ref, self.dom, self.assume = name, fn, tuple(ins), ref, dom, assume
         self.tags = frozenset(tags)
+        self.may_raise = may_raise       # observation harnesses: exception types the program may legitimately raise
 
     def __repr__(self):
         return "Entry(%s)" % self.name
